@@ -40,6 +40,9 @@ partial def decGoVal (j : Json) : Except String GoVal := do
     match j.getObjVal? "$float" with
     | .ok m => return .float (← m.getInt?) 0          -- an integral float64
     | .error _ =>
+    match j.getObjVal? "$num" with
+    | .ok (.arr #[_, n]) => return .int (← n.getInt?)   -- an integer of another width / behind a pointer: its value
+    | _ =>
     match j.getObjVal? "$go" with
     | .ok (.str "typednil") => return .typedNil
     | .ok (.str "nan") => return .nan
